@@ -14,9 +14,18 @@ var oneshots = map[string]func() string{}
 
 var oneshotInit = func() {}
 
+// oneshotPrefix maps a name prefix to a parametrised one-shot operation.
+var oneshotPrefix = map[string]func(arg string) string{}
+
 // Oneshot runs one registered operation and prints its observation.
 func Oneshot(name string) {
 	oneshotInit()
+	for pre, g := range oneshotPrefix {
+		if len(name) > len(pre) && name[:len(pre)] == pre {
+			fmt.Print(g(name[len(pre):]))
+			return
+		}
+	}
 	f, ok := oneshots[name]
 	if !ok {
 		fmt.Fprintln(os.Stderr, "unknown oneshot", name)
